@@ -366,6 +366,10 @@ def run_unit(u, repo, tier):
         sys.path.insert(0, os.path.dirname(os.path.abspath(__file__)))
         import kani_unit
         return kani_unit.run(u, repo, tier, BUILD)
+    if eng == "bounded":
+        sys.path.insert(0, os.path.dirname(os.path.abspath(__file__)))
+        import bounded_unit
+        return bounded_unit.run(u, repo, tier, BUILD)
     return {"unit": u["name"], "status": "undecided", "notes": [f"unknown engine {eng}"], "obligations": [], "failures": [], "wall_s": 0}
 
 
@@ -620,7 +624,11 @@ def main():
                     rc = 2
     wall = time.time() - t0
 
-    # evidence
+    # evidence. Bounded stand-ins are reported separately and are NOT counted among the proved obligations.
+    is_bounded = lambda e: str(e.get("kind", "")).startswith("bounded")
+    bounded_obl = [e for e in all_obl if is_bounded(e)]
+    all_obl = [e for e in all_obl if not is_bounded(e)]
+    discharged -= sum(1 for e in bounded_obl if e["status"] == "discharged")
     n_obl = len(all_obl)
     ev = {
         "property_id": prop, "tier": a.tier if a.tier in ("quick", "thorough") else "quick", "seed": seed, "level": "proof",
@@ -635,7 +643,10 @@ def main():
             "per_obligation": per_obligation,
             "units": [{"unit": r["unit"], "engine": r.get("engine"), "status": r["status"], "wall_s": round(r["wall_s"], 2), "smt_ms": r.get("smt_ms"), "verus_summary": r.get("verus_summary"), "fn_times_ms": r.get("fn_times"), "vacuity": r.get("vacuity"), "notes": r["notes"], "bounded": r.get("bounded", [])} for r in results],
             "known_findings": [{"line": k["line"], "verifier_messages": [f["message"] for f in fs][:3]} for (k, fs) in known_hits],
-            "bounded": [b for r in results for b in r.get("bounded", [])],
+            "bounded": [b for r in results for b in r.get("bounded", []) if any(e["label"] == b.get("label") for e in bounded_obl) or not b.get("label")],
+            "bounded_checks": {"note": "bounded stand-ins (real code executed on every scenario of a stated small scope); NOT proofs, not counted in obligations / discharged",
+                               "run": len(bounded_obl), "passed": sum(1 for e in bounded_obl if e["status"] == "discharged"),
+                               "checks": [{"label": e["label"], "status": e["status"], "scope_and_statement": e["kind"] + " -- " + e["clause"], "backend": e["backend"]} for e in bounded_obl]},
             "not_covered": [u.get("not_covered", "") for u in sel if u.get("not_covered")],
             "samples": [{"label": o["label"], "clause": o["clause"], "backend": o["backend"], "status": o["status"]} for o in per_obligation[:3]],
             "exhaustive": False,
@@ -650,6 +661,8 @@ def main():
         json.dump(ev, open(os.path.join(EVID, f"{prop}.json"), "w"), indent=1)
     for l in out_lines:
         print(l)
+    if bounded_obl:
+        print(f"[{prop}] bounded stand-ins (not proofs): {sum(1 for e in bounded_obl if e['status'] == 'discharged')}/{len(bounded_obl)} passed")
     print(f"[{prop}] tier={a.tier} units={len(results)} obligations={n_obl} discharged={discharged} known-findings={len(known_hits)} violations={len(violations)} undecided-units={len(undecided)} wall={wall:.1f}s")
     if a.unit:
         for r in results:
